@@ -95,9 +95,9 @@ def same_cell(col, a, b):
     return False
 
 
-def make_csv(rows, cols):
+def make_csv(rows, cols, quote_all=False):
     out = io.StringIO(newline='')
-    w = csv.DictWriter(out, fieldnames=cols, lineterminator='\n')
+    w = csv.DictWriter(out, fieldnames=cols, lineterminator='\n', quoting=csv.QUOTE_ALL if quote_all else csv.QUOTE_MINIMAL)
     w.writeheader()
     for r in rows:
         w.writerow(r)
@@ -109,7 +109,7 @@ def impl_eval(case):
     from cardutil.config import config
     rows, cols = case['rows'], case['cols']
     codec, blocked = case['codec'], bool(case['b'])
-    text = make_csv(rows, cols)
+    text = make_csv(rows, cols, bool(case.get('quoteall')))
     why = None
     try:
         if case.get('cli'):
@@ -164,11 +164,19 @@ def impl_eval(case):
         else:
             ipm = io.BytesIO()
             ipm.close = lambda: None
+            # the blocking option as a caller may spell it: True / False, or — for a blocked file — None, 0 or left out
+            nb = {'no1014blocking': not blocked}
+            if blocked and case.get('nb') in ('none', 'zero'):
+                nb = {'no1014blocking': None if case['nb'] == 'none' else 0}
+            elif blocked and case.get('nb') == 'omit':
+                nb = {}
             mci_csv_to_ipm.mci_csv_to_ipm(in_csv=io.StringIO(text, newline=''), out_ipm=ipm, config=config,
-                                          out_encoding=codec, no1014blocking=not blocked)
+                                          out_encoding=codec, **nb)
             out = io.StringIO(newline='')
-            mci_ipm_to_csv.mci_ipm_to_csv(in_ipm=io.BytesIO(ipm.getvalue()), out_csv=out, config=config,
-                                          in_encoding=codec, no1014blocking=not blocked)
+            # the file handed on: a fresh file object over the bytes written, or the SAME object as the creator left it
+            # (finalised and rewound, like every file the library's writer closes)
+            mci_ipm_to_csv.mci_ipm_to_csv(in_ipm=ipm if case.get('samefile') else io.BytesIO(ipm.getvalue()), out_csv=out,
+                                          config=config, in_encoding=codec, **nb)
             got_text = out.getvalue()
     except Exception as ex:  # noqa
         return {'obs': 'escape:' + type(ex).__name__, 'violation': f'CSV -> IPM -> CSV failed: {ex!r}'}
@@ -244,6 +252,19 @@ def explore(run, tier):
             rows.append(r)
         cases.append({'rows': rows, 'cols': table_cols, 'codec': codec, 'b': i % 2,
                       'cli': (tier == 'thorough' and i % 3 == 0) or i % 40 == 0})
+    # every cell QUOTED, header line included (what spreadsheet exports with "quote all" produce); the function entry points
+    # chained on ONE in-memory file; the blocking option spelt None / 0 / left out, on tables longer than one block
+    for i, codec in enumerate(('latin_1', 'cp500', 'cp037')):
+        rows = [{'MTI': '1240', 'DE2': '5' * 16, 'DE42': f'MERCHANT {j:06d}', 'DE38': f'A{j:04d} '} for j in range(40)]
+        tcols = ['MTI', 'DE2', 'DE38', 'DE42']
+        for b in (0, 1):
+            cases.append({'rows': rows[:5], 'cols': tcols, 'codec': codec, 'b': b, 'cli': False, 'quoteall': True})
+            cases.append({'rows': rows[:5], 'cols': tcols, 'codec': codec, 'b': b, 'cli': True, 'quoteall': True})
+            cases.append({'rows': rows, 'cols': tcols, 'codec': codec, 'b': b, 'cli': False, 'samefile': True})
+            cases.append({'rows': rows[:2], 'cols': tcols, 'codec': codec, 'b': b, 'cli': False, 'samefile': True})
+        for nb in ('none', 'zero', 'omit'):
+            cases.append({'rows': rows, 'cols': tcols, 'codec': codec, 'b': 1, 'cli': False, 'nb': nb})
+            cases.append({'rows': rows[:3], 'cols': tcols, 'codec': codec, 'b': 1, 'cli': False, 'nb': nb, 'samefile': bool(i % 2)})
     # through the COMMAND entry points on real files: tables whose records are mostly blanks (0x40 in EBCDIC), so that an
     # unblocked file has 0x40 0x40 where block trailers would be (offsets 1012-1013, 2026-2027, ...): the options given
     # on the command line decide the format, not the content
